@@ -52,7 +52,7 @@ func Registry() []*Spec {
 	add(Spec{Property: "C05", Name: "VerifC05_Get", Pkg: "jp",
 		Quick: map[string]int{"B": 5, "STEP": 3}, Thorough: map[string]int{"FULL": 1, "B": 7, "STEP": 4},
 		Covers: []string{"nonempty", "empty"}, UnitDepth: 5,
-		Note: "jp.Expr.Get vs a reference selector; 7 concrete data shapes with distinct leaves; every fragment kind alone, in inner position and in last position (thorough: also between two fragments and every pair of kinds); Nth full-range symbolic int, slice bounds in [-B,B], step in [-STEP,STEP], union members, 1-byte symbolic keys, filter @.a > c with symbolic c"})
+		Note: "jp.Expr.Get vs a reference selector; 8 concrete data shapes with distinct leaves; every fragment kind alone, in inner position and in last position (thorough: also between two fragments and every pair of kinds); Nth full-range symbolic int, slice bounds in [-B,B], step in [-STEP,STEP], union members, 1-byte symbolic keys, filter @.a > c with symbolic c"})
 	// ---- C11: every evaluator and representation agrees with Get
 	add(Spec{Property: "C11", Name: "VerifC11_Agree", Pkg: "jp",
 		Quick: map[string]int{"B": 4, "STEP": 2}, Thorough: map[string]int{"FULL": 1, "B": 6, "STEP": 3},
